@@ -19,9 +19,26 @@ type OGen struct {
 	fresh uint64
 	// Wide: produce many distinct strings (dictionary pressure)
 	Wide bool
+	// Mono: low-entropy mode — every string, number, key and timestamp is drawn from a pool of Mono
+	// values (1 or 2), so that sorted groups span whole tables and repeat across the batches of a stream
+	Mono int
+}
+
+// monoPick: a quarter of the histories are low-entropy
+func monoPick(r *Rng) int {
+	switch r.Intn(8) {
+	case 0:
+		return 1
+	case 1:
+		return 2
+	}
+	return 0
 }
 
 func (g *OGen) str() string {
+	if g.Mono > 0 {
+		return []string{"retry", "again"}[g.r.Intn(g.Mono)]
+	}
 	switch g.r.Intn(8) {
 	case 0:
 		return ""
@@ -39,6 +56,9 @@ func (g *OGen) str() string {
 }
 
 func (g *OGen) i64() int64 {
+	if g.Mono > 0 {
+		return int64(7 + g.r.Intn(g.Mono))
+	}
 	switch g.r.Intn(7) {
 	case 0:
 		return 0
@@ -58,6 +78,9 @@ func (g *OGen) i64() int64 {
 }
 
 func (g *OGen) f64() float64 {
+	if g.Mono > 0 {
+		return 2.5 + float64(g.r.Intn(g.Mono))
+	}
 	switch g.r.Intn(8) {
 	case 0:
 		return 0
@@ -77,6 +100,9 @@ func (g *OGen) f64() float64 {
 }
 
 func (g *OGen) bytes() []byte {
+	if g.Mono > 0 {
+		return []byte{byte(1 + g.r.Intn(g.Mono))}
+	}
 	switch g.r.Intn(4) {
 	case 0:
 		return []byte{}
@@ -126,6 +152,9 @@ func (g *OGen) Value(v pcommon.Value, depth int) {
 }
 
 func (g *OGen) key() string {
+	if g.Mono > 0 {
+		return []string{"k", "j"}[g.r.Intn(g.Mono)]
+	}
 	switch g.r.Intn(10) {
 	case 0:
 		return "" // empty key: documented to be dropped
@@ -195,6 +224,10 @@ func (g *OGen) schemaURL() string {
 
 func (g *OGen) traceID() pcommon.TraceID {
 	var t pcommon.TraceID
+	if g.Mono > 0 {
+		t[15] = byte(1 + g.r.Intn(g.Mono))
+		return t
+	}
 	switch g.r.Intn(4) {
 	case 0: // shared trace id
 		t[15] = 1
@@ -218,6 +251,9 @@ func (g *OGen) spanID() pcommon.SpanID {
 }
 
 func (g *OGen) ts() pcommon.Timestamp {
+	if g.Mono > 0 {
+		return pcommon.Timestamp(1_700_000_000_000_000_000)
+	}
 	switch g.r.Intn(5) {
 	case 0:
 		return 0
@@ -269,7 +305,7 @@ func (g *OGen) Span(sp ptrace.Span) {
 		}
 	}
 	ne := g.r.Intn(3)
-	if g.r.Chance(50) {
+	if g.r.Chance(50) && g.Mono == 0 {
 		ne = 0
 	}
 	for i := 0; i < ne; i++ {
@@ -282,7 +318,7 @@ func (g *OGen) Span(sp ptrace.Span) {
 		}
 	}
 	nl := g.r.Intn(3)
-	if g.r.Chance(60) {
+	if g.r.Chance(60) && g.Mono == 0 {
 		nl = 0
 	}
 	for i := 0; i < nl; i++ {
